@@ -256,6 +256,8 @@ def fmt(t, depth=0):
         return "…"
     k = t[0]
     f = lambda x: fmt(x, depth + 1)  # noqa: E731
+    if k == "struct" and depth <= 8:
+        return "%s{%s}" % (str(t[1]).split("::")[-1], ", ".join("%s: %s" % (p_[0], f(p_[1])) for p_ in t[2:]))
     if k == "param":
         return t[1]
     if k == "field":
@@ -263,7 +265,7 @@ def fmt(t, depth=0):
     if k == "call":
         return "%s(%s)" % (re.sub(r"<[^<>]*>", "", t[1]).split("::")[-1], ", ".join(f(x) for x in t[2]))
     if k == "payload":
-        return "%s!%s%s" % (f(t[1]), t[2], ("." + str(t[3])) if t[3] else "")
+        return "%s!%s%s" % (f(t[1]), t[2], ("." + str(t[3])) if len(t) > 3 and t[3] else "")
     if k == "concat":
         return "concat(%s)" % ", ".join(repr(p_[1]) if p_[0] == "lit" else f(p_[1]) for p_ in t[1])
     if k == "at":
@@ -284,6 +286,8 @@ def fmt(t, depth=0):
         return "(%s %s %s)" % (f(t[2]), t[1], f(t[3])) if len(t) == 4 else "%s(%s)" % (t[1], f(t[2]))
     if k == "index":
         return "%s[%s]" % (f(t[1]), f(t[2]))
+    if k == "struct":
+        return "%s{%s}" % (str(t[1]).split("::")[-1], ", ".join("%s: %s" % (p_[0], f(p_[1])) for p_ in t[2:]))
     return "%s(%s)" % (k, ", ".join(f(x) for x in t[1:]))
 
 
@@ -1304,6 +1308,11 @@ class Evaluator:
                     self.ev(body, env, depth)
                 except _Continue:
                     continue
+                except _Return as r_:
+                    # a `return` from inside a loop body: recorded so that a rule over a "for every element" loop can tell an early
+                    # success exit (the remaining elements are never examined) from falling through after the last element
+                    self.path.events.append(Event("loop-return", None, [r_.v], None, n.get("sp"), name="return"))
+                    raise
         except _Break:
             pass
         return UNIT
@@ -1489,6 +1498,9 @@ class Evaluator:
             r = self.stream_builtin(name, a0, args, depth, node)
             if r is not NotImplemented:
                 return r
+        if getattr(self, "split_streams", False) and isinstance(a0, Sym) and name == "split" and len(args) == 2 and isinstance(args[1], Clo) and ("slice" in base or "[T]" in base):
+            # `bytes.split(|b| *b == b'.')`: the same positional model, the separator being "whatever this predicate accepts"
+            return SplitStream(a0.t, "pred@%s" % (args[1].node.get("sp") or "?").rsplit(":", 2)[0].rsplit("/", 1)[-1])
         if getattr(self, "split_streams", False) and isinstance(a0, Sym) and "str" in base:
             sep_ = lambda x: chr(int(x)) if isinstance(x, Ch) else (x if isinstance(x, str) and not isinstance(x, Sym) else None)  # noqa: E731
 
@@ -2482,5 +2494,7 @@ def lit_value(v):
 
 
 def explore(F, fn, opaque=None, **kw):
-    return Evaluator(F, opaque=opaque, **{k: v for k, v in kw.items() if k in ("inline_depth", "loop_bound", "inline_filter", "concrete_vec", "char_streams")}).explore(
-        fn, **{k: v for k, v in kw.items() if k in ("args", "max_paths", "finalize")})
+    ev = Evaluator(F, opaque=opaque, **{k: v for k, v in kw.items() if k in ("inline_depth", "loop_bound", "inline_filter", "concrete_vec", "char_streams")})
+    if kw.get("split_streams"):
+        ev.split_streams = True
+    return ev.explore(fn, **{k: v for k, v in kw.items() if k in ("args", "max_paths", "finalize")})
